@@ -366,7 +366,7 @@ theorem keywords_exact :
       ⟨cs% "format_constness_right", cs% "ast::Const", [(cs% "Yes", cs% " const"), (cs% "No", [])]⟩,
       ⟨cs% "format_defaultness", cs% "ast::Defaultness", [(cs% "Default", cs% "default "), (cs% "Final", [])]⟩,
       ⟨cs% "format_safety", cs% "ast::Safety",
-        [(cs% "Unsafe", cs% "unsafe "), (cs% "Safe", cs% "safe "), (cs% "Default", [])]⟩,
+        [(cs% "Unsafe", cs% "unsafe" ++ [' ']), (cs% "Safe", cs% "safe "), (cs% "Default", [])]⟩,
       ⟨cs% "format_auto", cs% "ast::IsAuto", [(cs% "Yes", cs% "auto "), (cs% "No", [])]⟩,
       ⟨cs% "format_mutability", cs% "ast::Mutability", [(cs% "Mut", cs% "mut "), (cs% "Not", [])]⟩] := by
   decide
